@@ -7,17 +7,17 @@ Open Scope Z_scope.
 (* 1.0 : Display "1" -> re-parses as the int 1 *)
 Definition w_float : expr := EBinary (EIdent 5%N) Add (ELit (LFloat 7%N (Some 1))).
 Lemma float_refuted :
-  wfb w_float = true /\ has_cc w_float = false /\ Known_C08_float_integral w_float /\
+  wfb w_float = true /\ Known_C08_float_integral w_float /\
   parse_expr 100 (print_expr w_float) = POk (EBinary (EIdent 5%N) Add (ELit (LInt 1)), []) /\
   EBinary (EIdent 5%N) Add (ELit (LInt 1)) <> w_float.
 Proof. repeat split; try reflexivity. discriminate. Qed.
 
-(* x[1: :2] is printed with the single token `::` and no longer parses *)
+(* x[1: :2] is printed with the single token `::`; since /repo 974c053 the parser accepts it *)
 Definition w_cc : expr := ESlice (EIdent 5%N) (Some (ELit (LInt 1))) None (Some (ELit (LInt 2))).
-Lemma colon_colon_refuted :
-  wfb w_cc = true /\ Known_C08_slice_colon_colon w_cc /\
+Lemma colon_colon_roundtrips :
+  wfb w_cc = true /\ slice_colon_colon w_cc /\
   print_expr w_cc = [TId 5%N; TPu PLBracket; TInt 1; TPu PColonColon; TInt 2; TPu PRBracket] /\
-  parse_expr 100 (print_expr w_cc ++ [TNewline]) = PErr.
+  parse_expr 100 (print_expr w_cc ++ [TNewline]) = POk (w_cc, [TNewline]).
 Proof. repeat split; reflexivity. Qed.
 
 (* (x) => x is printed `(x: _) => x`, which does not parse; the source spelling does *)
@@ -68,7 +68,7 @@ Definition w_big : expr :=
     Or (EBinary (ECall (EIdent 2%N) [(None, EParen (EBinary (EIdent 1%N) Add (EIdent 2%N))); (Some 4%N, ETuple [ESelf])])
           Lt (EBinary (EUnary Neg (EMethod (EField (EIdent 1%N) (FIdx 0)) 5%N []))
                 Mul (EBinary (ETry (EIndex (EIdent 1%N) (ERange (ELit (LInt 0)) (EIdent 2%N) true)))
-                       Pow (EAwait (ESlice (EIdent 3%N) None (Some (EIdent 1%N)) (Some (ELit (LFloat 9%N None)))))))).
-Lemma big_ok : wfb w_big = true /\ has_cc w_big = false /\ has_intfloat w_big = false /\
+                       Pow (EAwait (ESlice (ESlice (EIdent 3%N) None None (Some (EIdent 2%N))) None (Some (EIdent 1%N)) (Some (ELit (LFloat 9%N None)))))))).
+Lemma big_ok : wfb w_big = true /\ has_intfloat w_big = false /\
   parse_expr (need w_big) (print_expr w_big ++ [TNewline]) = POk (w_big, [TNewline]).
 Proof. vm_compute. repeat split; reflexivity. Qed.
